@@ -24,8 +24,12 @@ Pre == [i \in 1..Len(PreList) |-> [h |-> PreH(PreList[i]), p |-> PreP(PreList[i]
 
 Fin == [queues |-> [s \in 1..Len(socks) |->
                       [alive |-> socks[s].alive, h |-> socks[s].h, p |-> socks[s].p,
+                       \* what a drain of the socket must return, in order: the datagram id, or
+                       \* 1000 + origin port for a zero-length datagram (it carries no id)
                        ids |-> IF socks[s].alive
-                               THEN bd[socks[s].h][socks[s].p].rxb \o bd[socks[s].h][socks[s].p].q
+                               THEN LET qs == bd[socks[s].h][socks[s].p].rxb \o bd[socks[s].h][socks[s].p].q
+                                    IN [i \in 1..Len(qs) |-> IF sends[qs[i]].len = 0
+                                                              THEN 1000 + sends[qs[i]].o.p ELSE qs[i]]
                                ELSE <<>>]]]
 
 GenInit == Init /\ hist = <<>>
